@@ -43,6 +43,8 @@ the rules see:
   S22 walrus              `if (m := f(x)) is not None: ...`  ->  `m = f(x)` ; `if m is not None: ...`
   S23 conditional loops   `for x in (A if c else B): S`  ->  `if c: for x in A: S else: for x in B: S` ; `for x in (): S` -> nothing
   S24 generator loops     `for x in (E(c) for c in it): S`  ->  `for c in it: x = E(c) ; S`
+  S25 decided tests       inside `if isinstance(x, T):` a nested test `isinstance(x, T)` is true (false in the `else`), x not re-bound
+  S26 flag variables      `if c: A; flag = True else: B; flag = False` ; REST(flag)  ->  REST moves into both branches
   S12 literal loops       `for x in (a, b): S(x)`  ->  `S(a)` ; `S(b)`   (at most four simple elements, no
                           `break`, `continue` only as leading guards, x not used afterwards)
 
@@ -350,6 +352,9 @@ class _Expr(ast.NodeTransformer):
         if isinstance(node.test, ast.UnaryOp) and isinstance(node.test.op, ast.Not):
             self.changed = True
             node.test, node.body, node.orelse = node.test.operand, node.orelse, node.body
+        if isinstance(node.test, ast.Constant) and isinstance(node.test.value, (bool, type(None))):
+            self.changed = True
+            return node.body if node.test.value else node.orelse
         # E5 equal alternatives: `X if a else (Y if b else X)` -> `Y if not a and b else X`
         if isinstance(node.orelse, ast.IfExp):
             inner = node.orelse
@@ -688,6 +693,10 @@ class Canon:
             r8 = self._unwalrus(s)
             if r8 is not None:
                 return r8, 0
+        if isinstance(s, ast.AnnAssign) and s.value is None and isinstance(s.target, ast.Name):
+            return [], 0  # a bare local annotation does nothing at run time
+        if isinstance(s, ast.If) and isinstance(s.test, ast.Constant) and isinstance(s.test.value, (bool, type(None))):
+            return list(s.body if s.test.value else s.orelse), 0
         if isinstance(s, ast.If):
             # S1 else hoisting
             if s.orelse and jumps(s.body):
@@ -774,6 +783,24 @@ class Canon:
                     first = _loc(ast.Assign(targets=[ast.Name(id=x1, ctx=ast.Store())], value=ie), s)
                     ren = _Subst(x, ast.Name(id=x1, ctx=ast.Load()))
                     return [first] + [ren.visit(r_) for r_ in rest], len(rest)
+            # S26 flag variables: `if c: ..; flag = True else: ..; flag = False` ; REST(flag)
+            #     ->  REST is duplicated into both branches (where the flag is a constant)
+            if s.orelse and rest and not jumps(s.body) and not jumps(s.orelse) and len(rest) <= 8:
+                ta, tb = _plain_target(s.body[-1]), _plain_target(s.orelse[-1])
+                if (
+                    ta is not None and ta == tb
+                    and isinstance(s.body[-1].value, ast.Constant) and isinstance(s.orelse[-1].value, ast.Constant)  # type: ignore[attr-defined]
+                    and s.body[-1].value.value is not s.orelse[-1].value.value  # type: ignore[attr-defined]
+                    and isinstance(s.body[-1].value.value, (bool, type(None)))  # type: ignore[attr-defined]
+                    and any(_all_loads(r_, ta) for r_ in rest)
+                    and not any(isinstance(n, (ast.FunctionDef, ast.AsyncFunctionDef, ast.ClassDef)) for r_ in rest for n in ast.walk(r_))
+                ):
+                    s.body = s.body + [copy.deepcopy(r_) for r_ in rest]
+                    s.orelse = s.orelse + list(rest)
+                    return [s], len(rest)
+            # S25 a test that an enclosing `if` has already decided
+            if self._propagate(s):
+                return [s], 0
             # S8 `if any(...): J`
             r = self._if_any(s)
             if r is not None:
@@ -1080,6 +1107,48 @@ class Canon:
             _replace_head(s, h, new_h)
             return [first, s]
         return None
+
+    # -- S25
+    def _decidable(self, t: ast.expr) -> bool:
+        """isinstance / identity / equality-with-constant tests over names and attribute paths."""
+        if isinstance(t, ast.Call) and isinstance(t.func, ast.Name) and t.func.id == "isinstance" and len(t.args) == 2 and not t.keywords:
+            return _simple(t.args[0]) and not isinstance(t.args[0], ast.Constant)
+        if isinstance(t, ast.Compare) and len(t.ops) == 1 and isinstance(t.ops[0], (ast.Is, ast.IsNot, ast.Eq, ast.NotEq)):
+            return _simple(t.left) and not isinstance(t.left, ast.Constant) and isinstance(t.comparators[0], (ast.Constant, ast.Name, ast.Attribute)) and _simple(t.comparators[0])
+        return False
+
+    def _propagate(self, s: ast.If) -> bool:
+        atoms_true = s.test.values if isinstance(s.test, ast.BoolOp) and isinstance(s.test.op, ast.And) else [s.test]
+        atoms_false = s.test.values if isinstance(s.test, ast.BoolOp) and isinstance(s.test.op, ast.Or) else [s.test]
+        changed = False
+        for atoms, blk_name, val in ((atoms_true, "body", True), (atoms_false, "orelse", False)):
+            blk = getattr(s, blk_name)
+            for a in atoms:
+                if not self._decidable(a):
+                    continue
+                roots = {n.id for n in ast.walk(a) if isinstance(n, ast.Name)}
+                attrs = {n.attr for n in ast.walk(a) if isinstance(n, ast.Attribute)}
+                if attrs & self.mutable_attrs:
+                    continue
+                stored = any(
+                    (isinstance(n, ast.Name) and n.id in roots and isinstance(n.ctx, (ast.Store, ast.Del)))
+                    or (isinstance(n, ast.Attribute) and isinstance(n.ctx, (ast.Store, ast.Del)) and n.attr in attrs)
+                    for st in blk for n in ast.walk(st)
+                )
+                if stored:
+                    continue
+                key = ast.dump(a)
+                neg = ast.dump(negate(copy.deepcopy(a)))
+                sub = _Known(key, neg, val)
+                new_blk = []
+                for st in blk:
+                    r = sub.visit(st)
+                    new_blk.extend(r if isinstance(r, list) else [r])
+                if sub.hits:
+                    changed = True
+                    setattr(s, blk_name, new_blk or [_loc(ast.Pass(), s)])
+                    blk = getattr(s, blk_name)
+        return changed
 
     # -- S11
     def _is_reduce(self, e: ast.expr) -> bool:
@@ -1494,6 +1563,44 @@ def _replace_head(s: ast.stmt, old: ast.expr, new: ast.expr) -> None:
                     return
     # in-place transformers return the same object: nothing to do
     return
+
+
+class _Known(ast.NodeTransformer):
+    """Replace conditional expressions / statements whose test is a known atom (or its negation)."""
+
+    def __init__(self, key: str, neg: str, value: bool) -> None:
+        self.key, self.neg, self.value = key, neg, value
+        self.hits = 0
+
+    def _decide(self, t: ast.expr) -> Optional[bool]:
+        d = ast.dump(t)
+        if d == self.key:
+            return self.value
+        if d == self.neg:
+            return not self.value
+        return None
+
+    def visit_IfExp(self, node: ast.IfExp) -> ast.AST:
+        self.generic_visit(node)
+        d = self._decide(node.test)
+        if d is None:
+            return node
+        self.hits += 1
+        return node.body if d else node.orelse
+
+    def visit_If(self, node: ast.If) -> object:
+        self.generic_visit(node)
+        d = self._decide(node.test)
+        if d is None:
+            return node
+        self.hits += 1
+        return (node.body if d else node.orelse) or [ast.copy_location(ast.Pass(), node)]
+
+    def visit_FunctionDef(self, node: ast.FunctionDef) -> ast.AST:
+        return node
+
+    visit_AsyncFunctionDef = visit_FunctionDef  # type: ignore[assignment]
+    visit_Lambda = visit_FunctionDef  # type: ignore[assignment]
 
 
 def _plain_target(s: ast.stmt) -> Optional[str]:
